@@ -367,7 +367,7 @@ fn single_item_law(m: usize, base: u64, n: u64) -> LawStats {
 fn law_exceeds(st: &LawStats) -> Option<String> {
     let mut v = Vec::new();
     if let Some((c, d)) = st.chi2 {
-        if d > 0. && c > d + 6. * (2. * d).sqrt() {
+        if d > 0. && crate::common::chi2_sf(c, d) < 1e-9 {
             v.push(format!("the {} orders of the integer parts are not equally frequent (chi2 = {:.1} on {} d.f.)", d + 1., c, d));
         }
     }
